@@ -1170,3 +1170,128 @@ func (f *FS) ReadDirN(h *Handle, n int) ([]string, int) {
 	h.Pos += n
 	return rest[:n], OK
 }
+
+// EvalSymlinks is Go's filepath.EvalSymlinks algorithm (walkSymlinks, unix)
+// over the model's Lstat and Readlink; "too many links" is reported as ELOOP.
+func (f *FS) EvalSymlinks(path string) (string, int) {
+	if path == "" {
+		return "", OK // filepath.EvalSymlinks("") returns "", nil ... (walkSymlinks returns Clean("") = ".")
+	}
+	volLen := 0
+	if len(path) > 0 && path[0] == '/' {
+		volLen = 1
+	}
+	vol := path[:volLen]
+	dest := vol
+	links := 0
+	for start, end := volLen, volLen; start < len(path); start = end {
+		for start < len(path) && path[start] == '/' {
+			start++
+		}
+		end = start
+		for end < len(path) && path[end] != '/' {
+			end++
+		}
+		if end == start {
+			break
+		} else if path[start:end] == "." {
+			continue
+		} else if path[start:end] == ".." {
+			var r int
+			for r = len(dest) - 1; r >= volLen; r-- {
+				if dest[r] == '/' {
+					break
+				}
+			}
+			if r < volLen || dest[r+1:] == ".." {
+				if len(dest) > volLen {
+					dest += "/"
+				}
+				dest += ".."
+			} else {
+				dest = dest[:r]
+			}
+			continue
+		}
+		if len(dest) > 0 && dest[len(dest)-1] != '/' {
+			dest += "/"
+		}
+		dest += path[start:end]
+		st, e := f.Lstat(dest)
+		if e != OK {
+			return "", e
+		}
+		if st.Kind != KLink {
+			if st.Kind != KDir && end < len(path) {
+				return "", ENOTDIR
+			}
+			continue
+		}
+		links++
+		if links > 255 {
+			return "", ELOOP
+		}
+		link, e := f.Readlink(dest)
+		if e != OK {
+			return "", e
+		}
+		path = link + path[end:]
+		if len(link) > 0 && link[0] == '/' {
+			dest = link[:1]
+			end = 1
+			vol = link[:1]
+			volLen = 1
+		} else {
+			var r int
+			for r = len(dest) - 1; r >= volLen; r-- {
+				if dest[r] == '/' {
+					break
+				}
+			}
+			if r < volLen {
+				dest = vol
+			} else {
+				dest = dest[:r]
+			}
+			end = 0
+		}
+	}
+	return cleanPath(dest), OK
+}
+
+// cleanPath is path.Clean for slash-separated paths.
+func cleanPath(p string) string {
+	if p == "" {
+		return "."
+	}
+	rooted := p[0] == '/'
+	comps, _ := split(p)
+	var out []string
+	for _, c := range comps {
+		switch c {
+		case ".":
+		case "..":
+			if len(out) > 0 && out[len(out)-1] != ".." {
+				out = out[:len(out)-1]
+			} else if !rooted {
+				out = append(out, "..")
+			}
+		default:
+			out = append(out, c)
+		}
+	}
+	s := ""
+	for i, c := range out {
+		if i > 0 {
+			s += "/"
+		}
+		s += c
+	}
+	if rooted {
+		return "/" + s
+	}
+	if s == "" {
+		return "."
+	}
+	return s
+}
